@@ -3,6 +3,9 @@ import collections, re
 from .. import build, core, genmod, bundle, gfind, bervar, sexp, c03_oer
 from . import c01, c02
 
+# identifiers of the control-character tags of X.680 11.15.5 as OCTET_STRING__xer_escape_table spells them
+CTL_TAGS = set("nul soh stx etx eot enq ack bel bs vt ff so si dle dc1 dc2 dc3 dc4 nak syn etb can em sub esc is4 is3 is2 is1".split())
+
 def xer_variants(text, rng, count):
     """whitespace / comments between elements (X.693 8: only where a tag directly follows a tag and
     the pair is not <x></x> of one element, so that no string content is changed)"""
@@ -10,16 +13,14 @@ def xer_variants(text, rng, count):
     t = text.decode("utf-8", "surrogateescape")
     pos = [m.end() - 1 for m in re.finditer(r">\s*<", t)]      # index of the '<'
     def ok(i):
-        # do not touch <x></x> (empty content must stay empty); do not put white-space around an
-        # empty-element value such as <true/> or an enumeration identifier (finding F59: rejected by asn1c)
+        # do not touch <x></x> (empty content must stay empty) nor the content of a character string (next to a
+        # control-character tag such as <nul/>).  White space around another empty-element value (<b> <true/> </b>,
+        # an enumeration identifier, <PLUS-INFINITY/>) is generated: finding F59 is repaired
         j = t.rfind("<", 0, i)
         k = t.find(">", i)
         prev_is_start = t[j + 1] != "/" and t[t.find(">", j) - 1] != "/"
-        prev_is_empty = t[t.find(">", j) - 1] == "/"
-        next_is_empty = t[k - 1] == "/"
         if prev_is_start and t[i + 1] == "/": return False
-        if next_is_empty and prev_is_start: return False
-        if prev_is_empty and t[i + 1] == "/": return False
+        if t[j + 1:t.find(">", j)].rstrip("/") in CTL_TAGS or t[i + 1:k].rstrip("/") in CTL_TAGS: return False
         return True
     pos = [i for i in pos if ok(i)]
     fillers = [" ", "\n", "\t\r\n  ", "<!-- c -->", " <!-- a --> \n"]
@@ -33,6 +34,7 @@ def xer_variants(text, rng, count):
 def run(ctx):
     ctx.lean()
     gfind.replay_witnesses(ctx)
+    gfind.replay_fixed_witnesses(ctx)      # former witnesses of repaired findings must not reproduce
     # OER / UPER: valid encodings that are not the library's own (Lean variant generators L2.OerVar / L2.UperVar)
     import time as _t; _t0 = _t.time()
     vacc = c03_oer.Acc(ctx)
@@ -58,8 +60,7 @@ def run(ctx):
             for v in vg.values(t, nvals):
                 sx = genmod.val_sexp(t, v, env)
                 enc.append(f"@{n} enc der {sx}"); meta.append((n, t, sx, "der", feats))
-                if "REAL" not in feats:
-                    enc.append(f"@{n} enc cxer {sx}"); meta.append((n, t, sx, "cxer", feats))
+                enc.append(f"@{n} enc cxer {sx}"); meta.append((n, t, sx, "cxer", feats))     # REAL included: CANONICAL-XER is exact, <r> <PLUS-INFINITY/> </r> decodes (F59 repaired)
         outs, _ = ctx.run_c_bisect(exe, enc)
         lines, lmeta = [], []
         for (n, t, sx, syn, feats), o in zip(meta, outs):
